@@ -84,6 +84,7 @@ func (a *kAggregate) Next(ctx context.Context) ([]model.StepVector, error) {
 	if in != nil {
 		defer a.next.GetPool().PutVectors(in)
 	}
+	ended := in == nil
 
 	args, err := a.paramOp.Next(ctx)
 	if err != nil {
@@ -91,7 +92,7 @@ func (a *kAggregate) Next(ctx context.Context) ([]model.StepVector, error) {
 	}
 	// The parameter is validated at every step, also when there is no input
 	// left to aggregate: an invalid k fails the query even over empty data.
-	if in == nil {
+	if len(in) == 0 {
 		for i := range args {
 			if len(args[i].Samples) > 0 && !convertibleToInt64(args[i].Samples[0]) {
 				return nil, errors.Newf("Scalar value %v overflows int64", args[i].Samples[0])
@@ -99,7 +100,10 @@ func (a *kAggregate) Next(ctx context.Context) ([]model.StepVector, error) {
 			a.paramOp.GetPool().PutStepVector(args[i])
 		}
 		a.paramOp.GetPool().PutVectors(args)
-		return nil, nil
+		if ended {
+			return nil, nil
+		}
+		return a.vectorPool.GetVectorBatch(), nil
 	}
 	for i := range a.params {
 		a.params[i] = math.NaN()
